@@ -54,7 +54,8 @@ func (ps *PartitionSet) AddRange(partName, modelName string, start, end, modulo 
 		partitionIndex = len(ps.names) - 1
 	}
 
-	for i := start; i <= end; i += modulo {
+	// i >= start: a huge step must not wrap around to a negative index
+	for i := start; i <= end && i >= start; i += modulo {
 		if ps.partitions[i] != -1 {
 			err = fmt.Errorf("several partitions are defined for site %d ", i)
 			return
